@@ -59,6 +59,11 @@ def run(ctx):
         if db2 is not None:
             res.oracle_failures.append(("create_db on an existing database did not raise without force",
                                         {"old": old_lines, "new": new_lines}))
+        # the World model (GffModel/World.lean, theorem create_existing_fails_untouched) says `.error .operational`
+        res.corr_checked += 1
+        if rep2 != "err OperationalError":
+            res.corr_disagreements.append(("World.createDb on an occupied path", repr(new_lines)[:300],
+                                           "err OperationalError", rep2))
         if after != before:
             res.oracle_failures.append(("create_db(force=False) on an existing database changed its content",
                                         {"old": old_lines, "new": new_lines}))
